@@ -99,6 +99,15 @@ type opsCase struct {
 	st *store // private store used to learn impl state while generating
 	pj *simdjson.ParsedJson
 	nd bool
+
+	pjName string
+}
+
+func (c *opsCase) name() string {
+	if c.pjName == "" {
+		return "p"
+	}
+	return c.pjName
 }
 
 func (c *opsCase) emit(op string) string {
@@ -116,8 +125,13 @@ func (c *opsCase) expectLast(want string) {
 
 var setStrPool = []string{"", "x", "hello", "\"quoted\"\n", "é中", "\x00\x1f", strings.Repeat("long", 40)}
 
-// oneEdit applies one random in-place edit and returns false if nothing could be done.
-func (c *opsCase) oneEdit(roots []*node) {
+// oneEdit applies one random in-place edit on document "p".
+func (c *opsCase) oneEdit(roots []*node) { c.oneEditOn(roots, "p") }
+
+// oneEditOn applies one random in-place edit on the named document (c.pj must be that document).
+func (c *opsCase) oneEditOn(roots []*node, pjName string) {
+	c.pjName = pjName
+	defer func() { c.pjName = "" }()
 	r := c.r
 	var all []*node
 	for _, rt := range roots {
@@ -133,7 +147,7 @@ func (c *opsCase) oneEdit(roots []*node) {
 		return
 	}
 	n := all[r.intn(len(all))]
-	nav, ok := navOps(c.pj, "t", "p", n.off)
+	nav, ok := navOps(c.pj, "t", c.name(), n.off)
 	if !ok {
 		return
 	}
@@ -306,18 +320,18 @@ func (c *opsCase) gateEdit() {
 	if len(offs) == 0 {
 		return
 	}
-	nav, ok := navOps(c.pj, "t", "p", offs[r.intn(len(offs))])
+	nav, ok := navOps(c.pj, "t", c.name(), offs[r.intn(len(offs))])
 	if !ok {
 		return
 	}
 	for _, op := range nav {
 		c.emit(op)
 	}
-	before := c.st.exec("tape p")
+	before := c.st.exec("tape " + c.name())
 	op := r.pick([]string{"setnull t", "setint t 5", "setuint t 5", "setfloat t 3ff0000000000000", "setstr t 78", "setbool t 1"})
 	c.emit(op)
 	c.expectLast("err")
-	c.emit("tape p")
+	c.emit("tape " + c.name())
 	c.expectLast(before)
 }
 
@@ -460,7 +474,18 @@ containers:
 				}
 				c.expectLast("ok " + strings.Join(parts, ","))
 			}
-			c.emit("emarshal es")
+			if em := c.emit("emarshal es"); em == "err" || em == "panic" {
+				c.expectLast("<Elements.MarshalJSON succeeds>")
+			} else if uniqueKeys(n.keys) || true {
+				c.emit("parse em 0 1 " + em)
+				var nb strings.Builder
+				nb.WriteByte('[')
+				n.ord(&nb)
+				nb.WriteByte(']')
+				if ow := c.emit("owalk em"); !docNumEq(nb.String(), ow) {
+					c.expectLast("<document equal to " + nb.String() + ">")
+				}
+			}
 			// NextElementBytes one by one
 			for i := 0; i <= len(n.children) && i < 4; i++ {
 				c.emit("next o ne")
@@ -483,7 +508,18 @@ containers:
 			}
 			c.emit("ainterface a")
 			c.expectLast(n.ifaceStr())
-			c.emit("amarshal a")
+			if am := c.emit("amarshal a"); am == "err" || am == "panic" {
+				c.expectLast("<Array.MarshalJSON succeeds>")
+			} else {
+				c.emit("parse am 0 1 " + am)
+				var nb strings.Builder
+				nb.WriteByte('[')
+				n.ord(&nb)
+				nb.WriteByte(']')
+				if ow := c.emit("owalk am"); !docNumEq(nb.String(), ow) {
+					c.expectLast("<document equal to " + nb.String() + ">")
+				}
+			}
 			c.emit("asstring a")
 			c.emit("asfloat a")
 			c.emit("asint a")
